@@ -87,6 +87,18 @@ class C02(SeqProp):
             tot = seq._schedule.get_duration()
             if tot != max((s[-1].tf if s else 0) for s in cur.values()):
                 bad("sequence-duration", f"sequence duration {tot} is not the max over channels")
+            # ... and with the pending fall times: the max over channels of each channel's own
+            # duration with fall time (each of which is judged above), also through the public query
+            want_f = max(seq._schedule[n].get_duration(include_fall_time=True) for n in cur)
+            tot_f = seq._schedule.get_duration(include_fall_time=True)
+            if tot_f != want_f:
+                bad("sequence-duration-with-fall", f"sequence duration incl. fall {tot_f} is not the max over channels ({want_f})")
+            for n in cur:
+                for fall in (False, True):
+                    a = seq._schedule.get_duration(n, include_fall_time=fall)
+                    b = seq._schedule[n].get_duration(include_fall_time=fall)
+                    if a != b:
+                        bad("channel-duration-query", f"get_duration({n!r}, fall={fall}) = {a}, channel reports {b}")
         st["prev"] = cur
         return v
 
